@@ -12,7 +12,7 @@ echo "== suite with patch"; /venv/bin/python -m pytest -q -p no:cacheprovider -n
 echo "== demo with patch"; PYTHONPATH=$WT /venv/bin/python $SD/demo.py >/dev/null 2>&1; echo "patched demo rc=$?"
 cd /verif
 for c in "$@"; do
-  echo "== check $c"; ORQUESTA_REPO=$WT ./check $c --tier quick 2>&1 | cut -c1-200 | grep -E "VIOLATION|^OK|MACHINERY|divergen" | sort | uniq -c | sort -rn | head -8
+  echo "== check $c"; VERIF_EVIDENCE_DIR=${TMPDIR:-/tmp}/verif_seed_evidence ORQUESTA_REPO=$WT ./check $c --tier quick 2>&1 | cut -c1-200 | grep -E "VIOLATION|^OK|MACHINERY|divergen" | sort | uniq -c | sort -rn | head -8
 done
 git -C $WT checkout -- .
 git -C $WT status --short | grep -v _seed | head -3
